@@ -180,6 +180,25 @@ def _run(ck, m):
                     n += 1
                     ck.ob('C19.d', short(b.id), 'default:%s' % ('admin' if is_admin else 'no-metadata'), strat == {'Newer'},
                           '%s uses strategy %s' % ('the admin database' if is_admin else 'a database loaded without metadata', sorted(strat)), b.loc(bi))
+    # the loader of the metadata file must HAVE a no-metadata default: a site that builds the metadata with a constant strategy.  When
+    # every site decodes the strategy from a buffer, a missing file yields whatever the buffer was initialised with (zeroes = None)
+    for b in P.user_bodies():
+        if not b.locals[0].endswith('bo::DatabaseMataData') or b.kind not in ('fn', 'method'):
+            continue
+        if not any(callee_decl(t) in ('std::fs::File::open', 'std::path::Path::exists', 'std::fs::OpenOptions::open') for _, t in b.calls()):
+            continue
+        consts_ = []
+        for bi, t in b.calls():
+            if callee(t).endswith('bo::DatabaseMataData::new') and len(t['args']) == 2:
+                rs = origins(b, t['args'][1])
+                if rs and all(r[0] in ('const', 'agg') for r in rs):
+                    consts_.append(bi)
+        if not consts_:
+            n += 1
+            ck.ob('C19.d', short(b.id), 'default:no-metadata', False,
+                  'the metadata loader has no site that builds the metadata with a constant strategy: for a database restored without its '
+                  'metadata file the strategy is decoded from a buffer nobody filled (zeroes decode to None, not Newer) — a stale versioned '
+                  'write is then refused on that replica while the primary accepts it', '%s:%s' % (b.file, b.line))
     ck.floor('C19.d', n, 2, 'default-strategy sites')
     # (f) entry point
     ent = [b for b in P.user_bodies() if b.kind == 'fn' and any(callee(t) == rb.id for _, t in b.calls())
